@@ -139,9 +139,6 @@ where
         weights: &'a [W],
     ) -> Result<Self::Metadata, Self::Error> {
         let part_count = 1 + *part_ids.par_iter().max().unwrap_or(&0);
-        if part_count < 2 {
-            return Ok(0);
-        }
         vn_first(part_ids, weights, part_count)
     }
 }
